@@ -12,8 +12,8 @@ whether the code has that shape now:
   doPendingFunctors(): callingSetBeforeSwap, callingResetAfterRun, drainSwaps
   queueInLoop():       appendUnderLock
   ~EventLoopThread():  dtorLocks, dtorJoinsIfStarted
-  threadFunc():        publishLocks, publishNotifies, clearLocks
-  startLoop():         startWaitsWhile
+  threadFunc():        publishLocks, publishNotifies, clearLocks, finishSets, finishNotifies
+  startLoop():         startWaitsWhile, startChecksFinished
 
 `Proofs/Loop.lean` states the value each proof needs (`…_tie : flag = true := rfl`), so a change of the code's
 shape breaks the proofs that rest on it.  A function whose body cannot be read as a sequence of the statement
@@ -592,6 +592,39 @@ def _elt_thread_func(docs, out):
     _flag(out, "publishLocks", pub[0][0], "`EventLoopThread::threadFunc`: `loop_ = &loop` and the notification happen under `mutex_`")
     _flag(out, "publishNotifies", notifies, "`EventLoopThread::threadFunc`: `cond_.notify()` / `notifyAll()` follows the publication")
     _flag(out, "clearLocks", clr[0][0], "`EventLoopThread::threadFunc`: `loop_ = NULL` after `loop.loop()` happens under `mutex_`")
+    # `finished_ = true` (+ notification) next to the clearing of loop_: what lets startLoop() stop waiting for a loop
+    # that has come and gone
+    for s in _flat(sts[:r + 1]):
+        if s.tag == "set" and s.target == "finished_":
+            raise ExtractError("%s: finished_ is assigned before `loop.loop()` returned (not modelled)" % what)
+    after_clear = clr[0][1]
+    fin = _index(after_clear, lambda s: s.tag == "set" and s.target == "finished_")
+    stray = [s for s in _flat(sts[r + 1:]) if s.tag == "set" and s.target == "finished_" and s not in after_clear]
+    if stray or len(fin) > 1 or (fin and after_clear[fin[0]].value is not True):
+        raise ExtractError("%s: finished_ is assigned in a way the model does not have" % what)
+    fin_sets = bool(fin) and clr[0][0]
+    fin_notifies = fin_sets and any(_is_call(x, "cond_", "notify") or _is_call(x, "cond_", "notifyAll")
+                                    for x in after_clear[fin[0] + 1:])
+    _flag(out, "finishSets", fin_sets,
+          "`EventLoopThread::threadFunc`: `finished_ = true` follows `loop_ = NULL` under `mutex_`")
+    _flag(out, "finishNotifies", fin_notifies,
+          "`EventLoopThread::threadFunc`: `cond_.notify()` / `notifyAll()` follows `finished_ = true`")
+
+
+def _start_wait_cond(cond):
+    """`loop_ == NULL` -> False, `loop_ == NULL && !finished_` (either order) -> True, anything else -> None"""
+    if _loop_ptr_test(cond, "=="):
+        return False
+    c = strip(cond)
+    if c.get("kind") == "BinaryOperator" and c.get("opcode") == "&&":
+        l, r = kids(c)
+
+        def not_finished(n):
+            n = strip(n)
+            return n.get("kind") == "UnaryOperator" and n.get("opcode") == "!" and _member_name(kids(n)[0]) == "finished_"
+        if (_loop_ptr_test(l, "==") and not_finished(r)) or (_loop_ptr_test(r, "==") and not_finished(l)):
+            return True
+    return None
 
 
 def _elt_start_loop(docs, out):
@@ -610,17 +643,19 @@ def _elt_start_loop(docs, out):
                 held = True
             elif s.tag == "block":
                 scan(s.body, held)
-            elif s.tag in ("while", "if") and _loop_ptr_test(s.cond, "=="):
+            elif s.tag in ("while", "if") and _start_wait_cond(s.cond) is not None:
                 body = s.body if s.tag == "while" else s.then
                 if any(_is_call(x, "cond_", "wait") for x in body):
-                    found.append((s.tag, held))
+                    found.append((s.tag, held, _start_wait_cond(s.cond)))
     scan(sts[start[0] + 1:], False)
     if len(found) != 1:
-        raise ExtractError("%s: expected one `while/if (loop_ == NULL) cond_.wait();` after thread_.start(), found %d" % (what, len(found)))
+        raise ExtractError("%s: expected one `while/if (loop_ == NULL [&& !finished_]) cond_.wait();` after thread_.start(), found %d" % (what, len(found)))
     if not found[0][1]:
         raise ExtractError("%s: cond_.wait() without mutex_" % what)
     _flag(out, "startWaitsWhile", found[0][0] == "while",
-          "`EventLoopThread::startLoop`: waits in a `while (loop_ == NULL)` (re-tests after every wake-up) under `mutex_`")
+          "`EventLoopThread::startLoop`: waits in a `while (loop_ == NULL …)` (re-tests after every wake-up) under `mutex_`")
+    _flag(out, "startChecksFinished", found[0][2],
+          "`EventLoopThread::startLoop`: the wait condition is `loop_ == NULL && !finished_` (it does not wait for a loop that is gone)")
 
 
 def generate():
